@@ -176,6 +176,10 @@ def order_rules(ctx):
             if tgt is None:
                 continue
             other = [p_ for p_ in parts if p_ != "self." + tgt]
+            if other in (["true"], ["True"]):
+                # `if group.flag { self.flag = true }`: the condition is the source
+                import guards as gd_
+                other = [sir.expr_str(subj).replace(" ", "") for kind, subj, pol in gd_.guards_of(f.body).get(id(n), []) if kind == "cond" and pol]
             same = bool(pn_) and other == ["%s.%s" % (pn_[0], tgt)]
             obs.append(ob("C20.order/import/flag/%s" % tgt, same, ctx.where(f), "`%s` is merged from %s" % (tgt, other),
                           witness=None if same else "a group whose only scripts are inline <wxs> blocks: imported, the WXS runtime is missing; added file by file, it is there"))
